@@ -91,8 +91,8 @@ def check_rp2(rep, h):
         from .hilbert_curve import step_expr, ev_int
         rv = s.retval()
         i = ('arg', 0)
-        if rv is None or not step_expr(ir.ungate(rv), {i}):
-            raise AnalysisBroken("C18 %s: no loop, and the result %s is not a step expression of i (count-leading-zeros, shifts, constants): not decided; re-confirm %s by reading" % (inst, ir.show(rv)[:80] if rv else "?", FILE))
+        if rv is None:
+            raise AnalysisBroken("C18 %s: no loop and no result" % inst)
         m = (1 << w) - 1
         for k in range(0, w):
             for d in (-2, -1, 0, 1, 2):
@@ -109,6 +109,9 @@ def check_rp2(rep, h):
                 if got != want:
                     rep.fail("C18.rp2", inst, FILE, "round_pow2(%d) evaluates to %d, the least power of two not below it is %d (closed form %s)" % (x, got, want, ir.show(ir.ungate(rv))[:80]))
                     return
+        if not step_expr(ir.ungate(rv), {i}):
+            # a witness refutes any expression; agreement proves equality only for a step expression
+            raise AnalysisBroken("C18 %s: no loop; the result %s agrees with the specification at every point tried but is not a step expression of i (count-leading-zeros, shifts, constants): not decided; re-confirm %s by reading" % (inst, ir.show(rv)[:80], FILE))
         rep.ok("C18.rp2", inst, sample={"instantiation": inst, "form": "closed (no loop): step expression of i", "verdict": "equals the least power of two >= i at every point where it can change, 1 <= i <= 2^%d" % (w - 1)})
         return
     if len(s.loops) != 1 or len(s.iv) != 1:
